@@ -119,6 +119,8 @@ def document_level(ctx, depth):
     cases = docrun.make_cases(ctx, 15 if depth == 'quick' else 200, profiles=('free', 'core'))
     # clef changes inside a split: two clefs in force at the same time within one spine
     special = [gen.clef_split_doc(ctx.rng) for _ in range(12 if depth == 'quick' else 120)]
+    # the same cell text under different clefs (neighbouring spines, and again after a clef change)
+    special += [gen.clef_echo_doc(ctx.rng) for _ in range(6 if depth == 'quick' else 60)]
     gen.render_documents(ctx.driver, special)
     sc = [docrun.Case(d) for d in special]
     for c in sc:
